@@ -553,9 +553,11 @@ func valueFromCall(v ssa.Value, a ssa.Value, depth int) bool {
 }
 
 type pairCtx struct {
-	c    *Ctx
-	triv *triviality
-	rule string // rule id prefix e.g. "C01"
+	c           *Ctx
+	triv        *triviality
+	rule        string // rule id prefix e.g. "C01"
+	r1          string // rule id for the PAIR obligations (default rule+".R1")
+	noPanicRule bool   // only leaks on normal paths are reported (C06: staging directories)
 }
 
 // disposesIn reports whether function body f (closure or callee; searched to the given depth through static module callees
@@ -657,6 +659,9 @@ func (pc *pairCtx) checkSite(fn *ssa.Function, a *ssa.Call, ref string, ord int,
 	owner := inSet(FuncID(rootFunc(fn)), k.owners)
 	construct := fmt.Sprintf("%s#%d[%s]", ref, ord, k.name)
 	rule1 := pc.rule + ".R1"
+	if pc.r1 != "" {
+		rule1 = pc.r1
+	}
 
 	// facts
 	failEdges := map[Edge]bool{}
@@ -706,7 +711,7 @@ func (pc *pairCtx) checkSite(fn *ssa.Function, a *ssa.Call, ref string, ord int,
 			}
 			// a module callee that disposes on every path (e.g. helper wrapping cleanup)
 			if f := staticCallee(x); f != nil && isSubject(f) {
-				if ds := pc.disposalsIn(f, k, nil, 1, map[*ssa.Function]bool{}); len(ds) > 0 && pc.passesArg(x, a) {
+				if ds := pc.disposalsIn(f, k, nil, 1, map[*ssa.Function]bool{}); len(ds) > 0 && (pc.calleeDisposesArg(x, a, f, ds) || f.Parent() == fn) {
 					genI[i] = true
 				}
 			}
@@ -784,7 +789,7 @@ func (pc *pairCtx) checkSite(fn *ssa.Function, a *ssa.Call, ref string, ord int,
 		if unreachable || facts["safe"] {
 			return
 		}
-		if pc.triv.call(c) {
+		if pc.triv.call(c) || pc.noPanicRule {
 			return
 		}
 		lab := instrLabel(c)
@@ -952,6 +957,64 @@ func (pc *pairCtx) flagSetOnlyAfterPublish(flag ssa.Value, k *resKind) bool {
 		}
 	}
 	return trues > 0 && trues == good
+}
+
+// calleeDisposesArg: call x hands (a value derived from) the acquired resource to callee f as parameter j, and one of f's
+// disposal calls ds operates on that parameter (not on some other resource of the same kind).
+func (pc *pairCtx) calleeDisposesArg(x *ssa.Call, a ssa.Value, f *ssa.Function, ds []ssa.CallInstruction) bool {
+	if !pc.passesArg(x, a) {
+		return false
+	}
+	for j, arg := range x.Call.Args {
+		if j >= len(f.Params) {
+			break
+		}
+		if !valueFromCall(arg, a, 0) {
+			if fa, ok := arg.(*ssa.UnOp); !ok || fa.Op != token.MUL {
+				continue
+			}
+		}
+		prm := f.Params[j]
+		for _, d := range ds {
+			if d.Parent() != f {
+				return true // disposal deeper in the call chain: not tracked further
+			}
+			for _, da := range d.Common().Args {
+				if derivesFrom(da, prm, 0, map[ssa.Value]bool{}) || valueFromParam(da, prm) {
+					return true
+				}
+			}
+		}
+	}
+	return false
+}
+
+// valueFromParam: v is the parameter or a load of its spill cell / a field of it.
+func valueFromParam(v ssa.Value, prm *ssa.Parameter) bool {
+	for i := 0; i < 6 && v != nil; i++ {
+		if v == ssa.Value(prm) {
+			return true
+		}
+		switch x := v.(type) {
+		case *ssa.UnOp:
+			if al, ok := x.X.(*ssa.Alloc); ok {
+				for _, rf := range *al.Referrers() {
+					if st, ok := rf.(*ssa.Store); ok && st.Addr == ssa.Value(al) && st.Val == ssa.Value(prm) {
+						return true
+					}
+				}
+				return false
+			}
+			v = x.X
+		case *ssa.FieldAddr:
+			v = x.X
+		case *ssa.Field:
+			v = x.X
+		default:
+			return false
+		}
+	}
+	return false
 }
 
 // passesArg: call x receives (a value derived from) a's results as an argument.
